@@ -8,6 +8,7 @@ import (
 	"math/rand"
 	"os"
 	"path/filepath"
+	"sort"
 	"strings"
 )
 
@@ -273,6 +274,9 @@ func (osObj *VirtualOS) Environ() []string {
 	for k, v := range osObj.env {
 		result = append(result, k+"="+v)
 	}
+	// Map iteration order is random: the same script on the same virtual
+	// environment must see the same list
+	sort.Strings(result)
 	return result
 }
 
